@@ -113,12 +113,9 @@ Qed.
    RFC 6979 nonce of (d, SHA256 (hex text of the digest)) — a function of the key and the digest only *)
 Lemma lib_sign_deterministic d msg ht : 0 <= ht < 256 ->
   lib_sign d msg None ht =
-  match spec_sign d (lib_z (lib_digest msg)) (rfc6979_nonce d (sha256 (hex_ascii (lib_digest msg)))) with
-  | Some (r, s) => Some (r, s, der_enc r s ++ [zb ht])
-  | None => None
-  end.
+  with_der ht (spec_sign d (lib_z (lib_digest msg)) (rfc6979_nonce d (sha256 (hex_ascii (lib_digest msg))))).
 Proof.
-  intros Hht. unfold lib_sign. rewrite lib_sign_with_eq. cbv zeta. unfold spec_sign, spec_normalise.
+  intros Hht. unfold lib_sign. rewrite lib_sign_with_eq. cbv zeta. unfold with_der, spec_sign, spec_normalise.
   change (lib_pick_nonce d (lib_digest msg) None) with (rfc6979_nonce d (sha256 (hex_ascii (lib_digest msg)))).
   destruct (ecdsa_sign _ _ _) as [[r s0]|]; [|reflexivity].
   replace ((0 <=? ht) && (ht <? 256)) with true; [reflexivity|].
@@ -128,12 +125,9 @@ Qed.
 (* with an explicit non-zero nonce: the same with that nonce *)
 Lemma lib_sign_explicit d msg k ht : 0 <= ht < 256 -> k <> 0 ->
   lib_sign d msg (Some k) ht =
-  match spec_sign d (lib_z (lib_digest msg)) k with
-  | Some (r, s) => Some (r, s, der_enc r s ++ [zb ht])
-  | None => None
-  end.
+  with_der ht (spec_sign d (lib_z (lib_digest msg)) k).
 Proof.
-  intros Hht Hk. unfold lib_sign. rewrite lib_sign_with_eq. cbv zeta. unfold spec_sign, spec_normalise.
+  intros Hht Hk. unfold lib_sign. rewrite lib_sign_with_eq. cbv zeta. unfold with_der, spec_sign, spec_normalise.
   unfold lib_pick_nonce. destruct (k =? 0) eqn:E; [apply Z.eqb_eq in E; contradiction|].
   destruct (ecdsa_sign _ _ _) as [[r s0]|]; [|reflexivity].
   replace ((0 <=? ht) && (ht <? 256)) with true; [reflexivity|].
@@ -159,7 +153,7 @@ Proof.
 Qed.
 
 Lemma lib_sig_parse_eq dd sig : lib_sig_parse dd sig =
-  if (64 <? Z.of_nat (length sig)) && starts_with sig 48 then
+  if negb (Z.of_nat (length sig) =? 64) && starts_with sig 48 then
     match dd (removelast sig) with
     | Some (r, s) =>
         if (r <? 2 ^ 256) && (s <? 2 ^ 256) then Some (r, s, bz (last sig x00)) else None
@@ -187,22 +181,21 @@ Proof. intros H b. destruct b; [|reflexivity]. unfold filt. rewrite H. reflexivi
 
 (* outside the two recorded classes the library reads a signature exactly as the strict reader does
    (after the range checks both apply) *)
-Lemma parse_agree sig : short_der sig = false -> lax_der sig = false ->
+Lemma parse_agree sig : der64 sig = false -> lax_der sig = false ->
   filt (lib_parse sig) = filt (spec_parse sig).
 Proof.
   intros Hshort Hlax. unfold lib_parse. rewrite lib_sig_parse_eq, spec_parse_eq.
-  unfold short_der in Hshort. unfold lax_der in Hlax.
+  unfold der64 in Hshort. unfold lax_der in Hlax.
   destruct (is_strict_der sig) eqn:Es.
-  - (* BIP66-valid: longer than 64 bytes (not short), so the DER branch is taken and decodes alike *)
+  - (* BIP66-valid and not 64 bytes long, so the DER branch is taken and decodes alike *)
     destruct (is_strict_der_inv sig Es) as (Hlen & rb & sb & Hsp).
-    cbn [andb] in Hshort. apply Z.leb_gt in Hshort.
+    cbn [andb] in Hshort.
     assert (Hne : sig <> []) by (intros ->; cbn in Hlen; lia).
     pose proof (length_removelast _ sig Hne) as Hlr.
     destruct (der_split_inv _ _ _ Hsp) as (t & l & t2 & lr & t3 & ls & Hb & T & _).
     assert (Hst : starts_with sig 48 = true).
     { rewrite (app_removelast_last x00 Hne), Hb. cbn [app starts_with]. apply Z.eqb_eq. exact T. }
-    replace (64 <? Z.of_nat (length sig)) with true by (symmetry; apply Z.ltb_lt; lia).
-    rewrite Hst. cbn [andb].
+    rewrite Hshort, Hst. cbn [negb andb].
     rewrite (lib_der_dec_of_split _ rb sb Hsp) by lia.
     unfold der_dec. rewrite Hsp.
     set (r := of_be rb). set (s := of_be sb). set (ht := bz (last sig x00)).
@@ -219,11 +212,10 @@ Proof.
       * destruct (lib_int_ok rb && lib_int_ok sb); [|reflexivity]. apply filt_out. exact Eir.
       * unfold filt. rewrite Eir. reflexivity.
   - (* not BIP66-valid *)
-    destruct ((64 <? Z.of_nat (length sig)) && starts_with sig 48) eqn:Ed; [|reflexivity].
+    destruct (negb (Z.of_nat (length sig) =? 64) && starts_with sig 48) eqn:Ed; [|reflexivity].
     cbn [negb andb] in Hlax.
     destruct (lib_der_dec (removelast sig)); [discriminate|].
-    apply andb_true_iff in Ed. destruct Ed as [Ed _]. apply Z.ltb_lt in Ed.
-    replace (Z.of_nat (length sig) =? 64) with false by (symmetry; apply Z.eqb_neq; lia). reflexivity.
+    apply andb_true_iff in Ed. destruct Ed as [Ed _]. apply negb_true_iff in Ed. rewrite Ed. reflexivity.
 Qed.
 
 (* ---------------------------------------------------------------- verify against the standard verifier *)
@@ -263,7 +255,7 @@ Qed.
    outside the recorded classes, the library's verify is the standard verifier on the strictly decoded input;
    in particular every malformed encoding, out-of-range (r, s) and off-curve key is refused *)
 Lemma lib_verify_exact dg sig Q :
-  dg <> [] -> short_der sig = false -> lax_der sig = false -> coords_reduced Q = true ->
+  dg <> [] -> der64 sig = false -> lax_der sig = false -> coords_reduced Q = true ->
   lib_verify dg sig Q = spec_verify (lib_z dg) sig Q.
 Proof.
   intros Hdg Hshort Hlax Hred. rewrite lib_verify_filt, spec_verify_filt, (parse_agree sig Hshort Hlax).
@@ -273,7 +265,7 @@ Qed.
 
 (* acceptance form: the library says True exactly when standard ECDSA accepts *)
 Lemma lib_verify_accepts_iff dg sig Q :
-  dg <> [] -> short_der sig = false -> lax_der sig = false -> coords_reduced Q = true ->
+  dg <> [] -> der64 sig = false -> lax_der sig = false -> coords_reduced Q = true ->
   (lib_verify dg sig Q = Some true <-> spec_verify (lib_z dg) sig Q = Some true).
 Proof. intros. rewrite lib_verify_exact by assumption. reflexivity. Qed.
 
@@ -285,19 +277,19 @@ Proof.
   destruct (lib_int_ok_or_zero _ Iok) as [H|H]; [exact H|lia].
 Qed.
 
-(* what lib_sign returns is read back by parse_bytes as the same (r, s, hash type) — when it is longer than
-   64 bytes (the short ones are finding short_der_rejected) *)
+(* what lib_sign returns is read back by parse_bytes as the same (r, s, hash type) — unless it is exactly
+   64 bytes long (finding der64_read_as_raw) *)
 Lemma lib_sign_parse_roundtrip d msg k ht r s enc : lib_sign d msg k ht = Some (r, s, enc) ->
-  64 < Z.of_nat (length enc) -> lib_parse enc = Some (r, s, ht).
+  Z.of_nat (length enc) <> 64 -> lib_parse enc = Some (r, s, ht).
 Proof.
   intros H Hlen. destruct (lib_sign_low_s _ _ _ _ _ _ _ H) as [Hr Hs].
   destruct (lib_sign_inv _ _ _ _ _ _ _ _ H) as (s0 & _ & _ & -> & Hht).
   pose proof secp_n_lt_2_256. pose proof half_lt_n.
   assert (Hr' : 0 < r < 2 ^ 256) by lia. assert (Hs' : 0 < s < 2 ^ 256) by lia.
   unfold lib_parse. rewrite lib_sig_parse_eq.
-  replace (64 <? _) with true by (symmetry; apply Z.ltb_lt; exact Hlen).
+  replace (Z.of_nat (length (der_enc r s ++ [zb ht])) =? 64) with false by (symmetry; apply Z.eqb_neq; exact Hlen).
   assert (Hst : starts_with (der_enc r s ++ [zb ht]) 48 = true) by (rewrite der_enc_eq; reflexivity).
-  rewrite Hst. cbn [andb]. rewrite removelast_snoc.
+  rewrite Hst. cbn [negb andb]. rewrite removelast_snoc.
   pose proof (der_enc_length r s Hr' Hs') as HL.
   rewrite (lib_der_dec_of_split _ _ _ (der_split_enc r s Hr' Hs')) by lia.
   rewrite !der_int_lib_ok by assumption. cbn [andb].
@@ -329,7 +321,7 @@ Lemma lib_sign_verifies d msg k ht r s enc Q :
   secp_laws ->
   match k with Some k0 => 1 <= k0 < secp_n | None => True end ->
   secp_pub d = Some Q -> coords_reduced Q = true -> lib_on_curve Q = true ->
-  lib_digest msg <> [] -> 64 < Z.of_nat (length enc) ->
+  lib_digest msg <> [] -> Z.of_nat (length enc) <> 64 ->
   lib_sign d msg k ht = Some (r, s, enc) ->
   lib_verify (lib_digest msg) enc Q = Some true.
 Proof.
